@@ -112,7 +112,7 @@ def run(tier, rep, replay=None):
 
 
 MANIFEST = {
- "text": "Policy.tla defines the formula language and the scheme's satisfaction semantics (negation pushed to leaves, label-presence rule) independently of the parser; CpAbe.tla (Encrypt/KeyGen/Tamper/Decrypt machine) is model-checked exhaustively for all formulas with <=2 leaves x 16 attribute assignments (AccessControl, Complete, PredicatesAgree; NNF preserves semantics; the naive boolean reading differs). TLC enumerates every formula (<=2 leaves complete in quick plus a 2 500-formula sample of the 16 384 three-leaf ones; all of them in thorough), the driver runs each through FromString, String->FromString, Satisfaction, Encrypt, ExtractFromCiphertext, CouldDecrypt and Decrypt under all 16 keys, single-bit alterations, both ciphertext formats (golden files), and TLC accepts the recorded answers only if they equal the specification's.",
+ "text": "Policy.tla defines the formula language and the scheme's satisfaction semantics (negation pushed to leaves, label-presence rule) independently of the parser; CpAbe.tla (Encrypt/KeyGen/Tamper/Decrypt machine) is model-checked exhaustively for all formulas with <=2 leaves x 16 attribute assignments (AccessControl, Complete, PredicatesAgree; NNF preserves semantics; the naive boolean reading differs). TLC enumerates every formula (<=2 leaves complete in quick plus a 2 500-formula sample of the 16 384 three-leaf ones; all of them in thorough), the driver runs each through FromString, String->FromString, Satisfaction, Encrypt, ExtractFromCiphertext, CouldDecrypt and Decrypt under all 16 keys, single-bit alterations, both ciphertext formats (golden files), and TLC accepts the recorded answers only if they equal the specification's. Trace_Large.tla also judges: strings with tokens after a complete policy (reject), a used policy still equal to an unused one and to its print/parse round trip, attribute values of 60-200 characters differing in the last one, and attribute keys too large for the 16-bit length fields (refused or round-tripping).",
  "note": "Alphabet of 2 labels x 2 values (+ absent / third value); formulas up to 3 leaves; messages of 7 lengths; bit alterations sampled (160 quick / 3000 thorough), not all. Pairing arithmetic itself is C12/C13.",
  "technique": "TLC-enumerated formula space + exhaustive model check of the decryption machine; replay on real tkn20; TLC trace validation with TLA+ evaluator as oracle",
 }
